@@ -43,6 +43,13 @@ theorem canned_matches_code (pseudo : Bool) :
     (∀ d ∈ cannedFirst pseudo ++ cannedSecond pseudo, d.ascending = true ∧ d.pseudo = pseudo) := by
   cases pseudo <;> decide +kernel
 
+/-- Why `script` and `category` keep the names without a unicode and `block` does not: their default tags
+"Unknown" and "Cn" are in the ordered tables of the code, "No_Block" is not. -/
+theorem default_tags :
+    "Unknown" ∈ Gen.SortTables.orderedScripts ∧ "Cn" ∈ Gen.SortTables.orderedCategories ∧
+    "No_Block" ∉ Gen.SortTables.orderedBlocks := by
+  decide +kernel
+
 /-! ## 1. Never more than was given (unconditional) -/
 
 /-- Whatever the look-ups, the names and the descriptors: the result holds no name more often than the
